@@ -630,6 +630,20 @@ func runC04(c *fw.Ctx) {
 		moved = append(moved, chd{filepath.Join(pf, "odd"), name})
 	}
 	moved = append(moved, chd{filepath.Join(pf, "real"), "-"}, chd{filepath.Join(pf, "real"), "~"}) // no such files there
+	// spellings that a "helpful" reader might translate (URLs, home and variable references): they are relative paths, some
+	// of which exist literally, with a decoy where the translation would lead
+	mk("urls/file:/conf.json", `{"literally":"file:/conf.json"}`)
+	mk("urls/conf.json", `{"decoy":"conf.json"}`)
+	mk("urls/~/t.json", `{"literally":"~/t.json"}`)
+	mk("urls/$HOME/t.json", `{"literally":"$HOME/t.json"}`)
+	mk("urls/${PWD}/t.json", `{"literally":"${PWD}/t.json"}`)
+	mk("urls/%2e/t.json", `{"literally":"%2e/t.json"}`)
+	mk("urls/t.json", `{"decoy":"t.json"}`)
+	mk("urls/http:/host/t.json", `{"literally":"http:/host/t.json"}`)
+	for _, rel := range []string{"file://conf.json", "file:/conf.json", "file:conf.json", "file:///" + filepath.Join(pf, "real", "t.json"), "file://localhost" + filepath.Join(pf, "real", "t.json"),
+		"file://" + filepath.Join(pf, "real", "t.json"), "~/t.json", "$HOME/t.json", "${PWD}/t.json", "%2e/t.json", "./%2e/t.json", "http://host/t.json", "t.json?x=1", "t.json#frag", "t.json\x00", "@t.json"} {
+		moved = append(moved, chd{filepath.Join(pf, "urls"), rel})
+	}
 	c.Cases("after-chdir", len(moved), true, func(i int, r *rng.R) {
 		wd, err := os.Getwd()
 		if err != nil || !filepath.IsAbs(pf) {
